@@ -12,6 +12,9 @@ ASSUMPTIONS = [
     "leg A: all histories of <= 3 saves (+ loads) over 2 directory names x 2 models x both storage modes; mkdir(exist_ok=True) is a named wrong design that must be caught",
     "leg C: TLC (-simulate) generates save/load histories over 3 names x 4 models; equal abstract names are forced to collide by pinning the harness-side clock the directory name is derived from; scratch directories live under /verif/.work and are removed",
     "only built-in mixtures can be re-loaded by name (the file stores the mixture name)",
+    "thorough tier: Apalache discharges, for tla/StoreApa.tla and tla/LoaderApa.tla (typed copies without the bound on the history length), an "
+    "inductive invariant and the action properties on one step from ANY state satisfying it - i.e. for save/load and edit/load histories of "
+    "any length over 4 names x 3 models / 3 curve-set entries; the named wrong designs are refuted the same way",
     "membrane directories (tla/Loader.tla): TLC enumerates all 102 layouts of ideal_experiments.csv x diffusion_curve_sets/ (entries good / wrong "
     "columns / ignorable) x results/ and simulates histories of directory edits and loads; each is built on disk and loaded with the public "
     "Membrane.load; curves written by the public writer must come back unchanged (clause); outcome, returned object, 'a load only ever adds "
@@ -132,6 +135,20 @@ def run(ctx, pool):
     }
     res["required_events"] = {k: hist.get(k, 0) for k in ("Save", "Load", "RTCurve", "RTFunction", "RTConditions")}
     res["failures"] = list(resL.get("failures", []))
+    apa = {"ran": False, "why": "thorough tier only"}
+    if not ctx.quick:
+        step = lambda inv: ["--init=IndInv", "--inv=" + inv, "--length=1"]
+        a1, f1 = core.apalache(ctx, "StoreApa.tla",
+                               [("base", ["--init=AInit", "--inv=IndInv", "--length=0"]), ("inductive_step", step("IndInv")),
+                                ("OldDirsImmutable_any_history", step("OldDirsImmutableA")), ("FreshDirOrRaise_any_history", step("FreshDirOrRaiseA"))],
+                               [("overwrite", ["--cinit=CInitNeg"] + step("OldDirsImmutableA"))])
+        a2, f2 = core.apalache(ctx, "LoaderApa.tla",
+                               [("base", ["--init=AInit", "--inv=IndInv", "--length=0"]), ("inductive_step", step("IndInv")),
+                                ("LoadOnlyAddsResults_any_history", step("LoadOnlyAddsResultsA")), ("LoadIdempotent_any_history", step("LoadIdempotentA"))],
+                               [("mkdir_first", ["--cinit=CInitNeg"] + step("LoadOnlyAddsResultsA"))])
+        apa = {"store": a1, "loader": a2}
+        res["failures"].extend(f1 + f2)
+    res["coverage"]["apalache_unbounded"] = apa
     if collisions == 0:
         res["failures"].append("vacuous: no forced directory-name collision occurred")
     res["trace_lookup"] = lambda v: [{k: x for k, x in v["record"].items() if k not in ("before", "after", "fields")}]
